@@ -19,7 +19,7 @@ func flattenCase(g *Gen, o flatOpts, plus bool, repeats, permutes int, faults bo
 	// KeepNames applies to single-document bundles: decided first, so that half of them use plain names only
 	keep := !o.Expand && g.p(0.2)
 	bo := BundleOpts{Plus: plus, AnonOK: anon, SharedOK: anon && !o.RemoveUnused, MaxAux: 3}
-	scenarios := []string{"collide-pointer", "collide-many", "collide-nested", "unused-chain", "expand-via-response"}
+	scenarios := []string{"collide-pointer", "collide-many", "collide-nested", "unused-chain", "expand-via-response", "collide-simple-shared", "prefix-names", "ref-siblings"}
 	if !keep && !plus && index%3 == 0 {
 		// every third bundle carries a planted interplay shape, taken in turn
 		bo.Scenario = scenarios[(index/3)%len(scenarios)]
@@ -249,7 +249,7 @@ func flattenLeanFindings(c *Case, v any) []Finding {
 		}
 		return false
 	}
-	if want("C01", "C04", "C05", "C06") {
+	if want("C01", "C04") || (want("C05") && o.Expand) || (want("C06") && o.RemoveUnused) {
 		if ok, _ := get(v, "meaning", "ok").(bool); !ok {
 			fs = append(fs, Finding{Kind: "property", Detail: fmt.Sprintf("Flatten (%s) changed the meaning of the API: first difference %s, missing definitions %s, top-level keys equal: %v", o, canonStr(get(v, "meaning", "firstDifference")), canonStr(get(v, "meaning", "missingDefinitions")), get(v, "meaning", "topKeysEqual")), Signature: sig("meaning")})
 		}
